@@ -120,7 +120,7 @@ def check(case, r):
                 a['class'] = 'close_inside_connection_requested'
     if out and (overlapping(r['log']) or dispatcher_in_flight_at_disconnect(r['log'])):
         for a in out:
-            if a['class'] not in ('link_error_from_sending_thread_wedges', 'fully_connected_on_cleared_table'):
+            if a['class'] not in ('link_error_from_sending_thread_wedges', 'fully_connected_on_cleared_table', 'thread_died'):
                 a['detail'] = {'original_class': a['class'], 'detail': a['detail']}
                 a['class'] = 'overlapping_transitions'
     return out
@@ -147,7 +147,9 @@ def _check(case, r):
         elif op == 'reconnect' and sender:
             cls = 'link_error_from_sending_thread_wedges'
         else:
-            cls = 'hang_or_dead_thread'
+            # a library thread that ended with an exception is its own class: it is never filed under the known
+            # overlapping-transitions finding F02c (which is about callbacks delivered late and a blocked close_link)
+            cls = 'thread_died' if r['dead'] else 'hang_or_dead_thread'
         out.append({'class': cls, 'detail': {'hangs': hangs, 'stuck': r['stuck'], 'dead': r['dead']}})
     # ---- trace grammar per attempt
     for k, seg in enumerate(attempts(log)):
